@@ -75,11 +75,16 @@ func c13Check(ctx *Ctx, idx int, cs c13Case) {
 			return time.Duration(dr.Intn(400)) * time.Microsecond
 		}
 	}
-	if cs.FaultSvc > 0 && cs.FaultSvc-1 < len(cf.F.Services) {
+	if fs := (cs.FaultSvc - 1) / 2; cs.FaultSvc > 0 && fs < len(cf.F.Services) {
 		ctx.Rep.Count("downstream failures injected in follow-up lookups")
-		cf.F.Services[cs.FaultSvc-1].Fault = func(c *fed.Call) *fed.FaultAction {
+		cf.F.Services[fs].Fault = func(c *fed.Call) *fed.FaultAction {
 			if !strings.Contains(c.Query, "node(id: $id)") {
 				return nil
+			}
+			if cs.FaultSvc%2 == 0 {
+				// an answer the EXECUTOR rejects while parsing (no `node` key): one error per lookup, told
+				// apart by its path only
+				return &fed.FaultAction{Kind: "replace", Data: map[string]interface{}{}}
 			}
 			return &fed.FaultAction{Kind: "errors", Data: []interface{}{map[string]interface{}{"message": "injected failure for " + fmt.Sprint(c.Variables["id"])}}}
 		}
@@ -95,7 +100,7 @@ func c13Check(ctx *Ctx, idx int, cs c13Case) {
 		for k := 0; k < cs.Repeats; k++ {
 			cf.F.ResetLogs()
 			resp := fed.Do(gw, cs.Query, cs.Vars, cs.OpName)
-			o := c13Obs{Data: hx.Canon(toGeneric(resp.Data)), Errors: errMsgs(resp.Errors), raw: toGeneric(resp.Data)}
+			o := c13Obs{Data: hx.Canon(toGeneric(resp.Data)), Errors: c13ErrKeys(resp.Errors), raw: toGeneric(resp.Data)}
 			for _, c := range cf.F.AllCalls() {
 				o.Calls = append(o.Calls, subRequestKey(cf.F.Services[c.Service].URL, c.Query, c.Variables))
 			}
@@ -159,6 +164,19 @@ func c13Check(ctx *Ctx, idx int, cs c13Case) {
 	if hx.Canon(mres["data"]) != first.Data && len(first.Errors) == 0 {
 		ctx.Rep.Fail(hx.Failure{Kind: "model-mismatch", Detail: "data differs between the real gateway and Model.gateway", Case: full, Impl: first.Data, Model: mres["data"], Index: idx})
 	}
+}
+
+// c13ErrKeys: an error is its message AND its path (two lookups failing the same way differ in
+// where), as a sorted list.
+func c13ErrKeys(errs []interface{}) []string {
+	var out []string
+	for _, e := range errs {
+		if m, ok := e.(map[string]interface{}); ok {
+			out = append(out, fmt.Sprint(m["message"])+" @ "+hx.Canon(m["path"]))
+		}
+	}
+	sort.Strings(out)
+	return out
 }
 
 // c13Class: node(id:) roots are scrubbed by whichever type Go's map iteration yields first (the
@@ -285,7 +303,7 @@ func runC13(ctx *Ctx) error {
 			cs.DelaySeed = r.U64()%1000 + 1
 		}
 		if r.Chance(1, 4) {
-			cs.FaultSvc = 1 + r.Intn(3) // failures: the SET of reported errors must not depend on timing either
+			cs.FaultSvc = 1 + r.Intn(6) // failures (odd: downstream errors, even: answers the executor rejects): the SET of reported errors must not depend on timing either
 		}
 		c13Check(ctx, 100+k, cs)
 	}
